@@ -730,7 +730,8 @@ def timecoord_stream(ctx) -> None:
     prim = ctx.model([f'timecoord {t}' for t, *_ in pending])
     cur = ctx.model([f'timecoordcur {t}' for t, *_ in pending])
     sav = ctx.model([f'savetime {t}' for t, *_ in pending])
-    for (tail, got, saved, desc), p, q, sv in zip(pending, prim, cur, sav):
+    savcur = ctx.model([f'savetimecur {t}' for t, *_ in pending])
+    for (tail, got, saved, desc), p, q, sv, svq in zip(pending, prim, cur, sav, savcur):
         ctx.evaluations += 1
         ctx.traces += 1
         if got != p:
@@ -742,7 +743,10 @@ def timecoord_stream(ctx) -> None:
             else:
                 ctx.disagree(f'timecoord {tail}', got, p, desc)
         if saved is not None and saved != sv:
-            ctx.disagree(f'savetime {tail}', saved, sv, desc)
+            if saved == svq == 'ERR' and got == q != p:
+                pass    # reported above by the oracle as save-raises-time-dimension-only
+            else:
+                ctx.disagree(f'savetime {tail}', saved, sv, desc)
 
 
 # --------------------------------------------------------------------------
